@@ -20,7 +20,9 @@ type Captured struct {
 	Err    string // parse error, if any
 }
 
-// Responder decides the canned answer for a captured request.
+// Responder decides the canned answer for a captured request. A status <= 0
+// means: close the connection without answering (the client sees a
+// connection error).
 type Responder func(c *Captured) (status int, contentType string, body []byte)
 
 // Recorder is a loopback HTTP/1.1 server that keeps the raw bytes of every
@@ -122,6 +124,9 @@ func (r *Recorder) serve(conn net.Conn) {
 		r.mu.Lock()
 		r.reqs = append(r.reqs, cap)
 		r.mu.Unlock()
+		if status <= 0 {
+			return
+		}
 		if req.Method == "HEAD" {
 			fmt.Fprintf(conn, "HTTP/1.1 %d %s\r\nContent-Type: %s\r\nContent-Length: %d\r\n\r\n", status, http.StatusText(status), ctype, len(rbody))
 		} else {
